@@ -133,6 +133,9 @@ def models(mb: ModelBuilder) -> dict[str, AObj]:
     ms = {"rich": rich_model(mb), "rich-noctc": rich_model(mb, ctcs=False)}
     for k in ("root-only", "one-child", "bushy", "two-groups", "wide-12", "nested-groups", "five-groups", "deep-9"):
         ms[k] = mb.model(build_tree(mb, TREES[k]), [])
+    # a model as a reader builds it (the FeatureIDE document flags the members of its groups `mandatory`, which means nothing)
+    from .c16 import reader_models
+    ms["read-by-FeatureIDEReader"] = reader_models(mb.pm, mb)["read-by-FeatureIDEReader"]
     # abstract and concrete features among leaves and compounds in different numbers (2 abstract compound, 3 abstract leaves,
     # 2 concrete compound, 4 concrete leaves): a share computed the wrong way round, or over the wrong listing, shows
     F_ = mb.feature
@@ -266,8 +269,11 @@ def check(pm: ProgramModel, ctx: Ctx) -> None:
     # the metric methods: the decorated methods of the class that the report mechanism treats as metrics - marked by a
     # decorator named after metrics, or (whatever the decorator is called) answering a filter on their name with one entry
     probe = rich_model(mb)
-    for meth in sorted(fmm.methods):
-        decs = fmm.methods[meth].decorators()
+    for meth in Interp(pm).class_names(fmm):                # the class's own methods and those of its package bases / mixins
+        mfi = pm.method(fmm, meth)
+        if mfi is None:
+            continue
+        decs = mfi.decorators()
         if not decs or meth.endswith(".setter") or set(decs) & {"staticmethod", "classmethod", "property", "abstractmethod"}:
             continue
         if any("metric" in d.split("(")[0] for d in decs):
